@@ -234,14 +234,22 @@ class Run:
 
 
 class LeanLock:
+    """Inter-process lock around everything that writes under lean/ (re-entrant in-process)."""
+    depth = 0
+    handle = None
+
     def __enter__(self):
-        self.f = open(LEAN / ".verif.lock", "w")
-        fcntl.flock(self.f, fcntl.LOCK_EX)
+        if LeanLock.depth == 0:
+            LeanLock.handle = open(LEAN / ".verif.lock", "w")
+            fcntl.flock(LeanLock.handle, fcntl.LOCK_EX)
+        LeanLock.depth += 1
         return self
 
     def __exit__(self, *a):
-        fcntl.flock(self.f, fcntl.LOCK_UN)
-        self.f.close()
+        LeanLock.depth -= 1
+        if LeanLock.depth == 0:
+            fcntl.flock(LeanLock.handle, fcntl.LOCK_UN)
+            LeanLock.handle.close()
 
 
 def write_if_changed(path: Path, text: str) -> bool:
@@ -270,7 +278,7 @@ def theorem_names(lean_file: Path) -> list[tuple[str, int]]:
         m = re.match(r"\s*end\s+(\S+)\s*$", line)
         if m and ns and ns[-1] == m.group(1):
             ns.pop()
-        m = re.match(r"\s*(?:@\[[^\]]*\]\s*)?(?:private\s+|protected\s+)?theorem\s+(\S+)", line)
+        m = re.match(r"\s*(?:@\[[^\]]*\]\s*)?(?:protected\s+)?theorem\s+(\S+)", line)
         if m:
             out.append((".".join(ns + [m.group(1)]), i))
     return out
@@ -320,12 +328,14 @@ def build_and_audit(run: Run, props_modules: list[str], extra_modules: list[str]
     mods = [f"GettsimVerif.Props.{m}" for m in props_modules] + list(extra_modules)
     run.checker_cmd = "cd lean && lake build " + " ".join(mods) + \
         " && lake env lean GettsimVerif/Audit/<generated #print axioms file>"
-    rc, out = lake(["build", *mods])
-    errors: dict[str, list[tuple[int, str]]] = {}
-    for m in ERR_RE.finditer(out):
-        errors.setdefault(m.group(1), []).append((int(m.group(2)), m.group(4)))
+    all_ok = True
     files = []
     for m in props_modules:
+        rc, out = lake(["build", f"GettsimVerif.Props.{m}"])
+        all_ok = all_ok and rc == 0
+        errors: dict[str, list[tuple[int, str]]] = {}
+        for mm in ERR_RE.finditer(out):
+            errors.setdefault(mm.group(1), []).append((int(mm.group(2)), mm.group(4)))
         f = LEAN / "GettsimVerif" / "Props" / f"{m}.lean"
         files.append(f)
         thms = theorem_names(f)
@@ -342,21 +352,18 @@ def build_and_audit(run: Run, props_modules: list[str], extra_modules: list[str]
             if owner:
                 failed.add(owner)
                 run.broke("theorem", owner, msg)
-        mod_broken = rc != 0 and (bool(errs) or f"Props.{m}" in out and "error" in out)
-        # a dependency (model / generated file / lemma) failed to build
+            else:
+                run.broke("build", f"Props.{m}", msg)
         dep_fail = rc != 0 and not errs
         if dep_fail:
             dep_msgs = [f"{p}:{l}: {msg}" for p, lst in errors.items() for l, msg in lst][:5]
             run.broke("build", f"Props.{m} (a dependency does not elaborate)",
                       "\n".join(dep_msgs) or out[-1500:])
-        if rc == 0:
-            audit = audit_axioms(m, [n for n, _ in thms])
-        else:
-            audit = {}
+        audit = audit_axioms(m, [n for n, _ in thms]) if rc == 0 else {}
         for name, _ in thms:
             if rc != 0:
-                ok = (name not in failed) and not dep_fail and False  # no .olean => not audited
-                run.oblige(name, ok, "build failed" if name not in failed else "proof no longer checks")
+                run.oblige(name, False, "proof no longer checks" if name in failed
+                           else "module did not build; not audited")
                 continue
             ax = audit.get(name)
             if ax is None:
@@ -367,6 +374,7 @@ def build_and_audit(run: Run, props_modules: list[str], extra_modules: list[str]
                 run.broke("audit", name, f"depends on axioms {ax}")
             else:
                 run.oblige(name, True, "axioms: " + (", ".join(ax) or "none"))
+    rc = 0 if all_ok else 1
     # forbidden tokens anywhere in the hand-written Lean sources
     all_src = [p for p in (LEAN / "GettsimVerif").rglob("*.lean")
                if "Audit" not in p.parts]
